@@ -10,12 +10,17 @@ Notation "x <- d ;; e" := (bindd d (fun x => e)) (at level 61, d at next level, 
 
 Definition dec_n : dec N := fun l => match l with x :: r => Some (x, r) | [] => None end.
 
+Fixpoint take (k : nat) (l : list N) : option (list N * list N) :=
+  match k with
+  | O => Some ([], l)
+  | S k' => match l with
+            | [] => None
+            | x :: r => match take k' r with Some (a, b) => Some (x :: a, b) | None => None end
+            end
+  end.
+
 Definition dec_text : dec (list N) :=
-  fun l => match l with
-           | n :: r => let k := N.to_nat n in
-                       if Nat.leb k (length r) then Some (firstn k r, skipn k r) else None
-           | [] => None
-           end.
+  fun l => match l with n :: r => take (N.to_nat n) r | [] => None end.
 
 Definition dec_opt {A} (d : dec A) : dec (option A) :=
   t <- dec_n ;; if t =? 0 then retd None else (x <- d ;; retd (Some x)).
@@ -136,3 +141,29 @@ Definition enc_schema (s : schema) : list N :=
   enc_opt enc_text (s_desc s) ++ enc_opt enc_text (s_query s) ++ enc_opt enc_text (s_mutation s)
   ++ enc_opt enc_text (s_subscription s) ++ enc_list enc_type (s_types s)
   ++ enc_list enc_directive (s_directives s).
+
+(* ---- SDL definitions *)
+From GV Require Import SchemaOps.Build.
+
+Definition dec_op : dec (N * name) := k <- dec_n ;; n <- dec_text ;; retd (k, n).
+
+Definition dec_def : dec definition :=
+  t <- dec_n ;;
+  if t =? 0 then (ds <- dec_opt dec_text ;; ops <- dec_list dec_op ;; retd (DSchema ds ops))
+  else if t =? 1 then (ops <- dec_list dec_op ;; retd (DSchemaExt ops))
+  else if t =? 2 then (d <- dec_directive ;; retd (DDirective d))
+  else if t =? 3 then (x <- dec_type ;; retd (DType x))
+  else if t =? 4 then (x <- dec_type ;; retd (DExtend x))
+  else retd DExecutable.
+
+Definition enc_op (o : N * name) : list N := fst o :: enc_text (snd o).
+
+Definition enc_def (d : definition) : list N :=
+  match d with
+  | DSchema ds ops => 0 :: enc_opt enc_text ds ++ enc_list enc_op ops
+  | DSchemaExt ops => 1 :: enc_list enc_op ops
+  | DDirective x => 2 :: enc_directive x
+  | DType x => 3 :: enc_type x
+  | DExtend x => 4 :: enc_type x
+  | DExecutable => [5]
+  end.
